@@ -1020,6 +1020,13 @@ class Interp:
             return recv
         if m == "is_empty" and isinstance(recv, tuple) and recv[:1] == ("str",):
             return recv[1] == ""
+        if m in ("split", "splitn", "rsplit") and isinstance(recv, tuple) and recv[:1] == ("str",) and args \
+                and isinstance(args[-1], tuple) and args[-1][:1] == ("str",) and args[-1][1]:
+            parts = recv[1].split(args[-1][1]) if m != "splitn" else (recv[1].split(args[-1][1], args[0] - 1) if isinstance(args[0], int) else None)
+            if parts is not None:
+                if m == "rsplit":
+                    parts = parts[::-1]
+                return ("list", [("str", x) for x in parts])
         if m in ("trim_end_matches", "trim_start_matches", "trim_matches") and isinstance(recv, tuple) and recv[:1] == ("str",) \
                 and args and isinstance(args[0], tuple) and args[0][:1] == ("str",) and args[0][1]:
             t, pat = recv[1], args[0][1]
